@@ -133,6 +133,10 @@ type Scenario struct {
 	Gens      []GenSpec   `json:"gens,omitempty"`
 	Target    FuncSpec    `json:"target"`
 	Malformed []Malformed `json:"malformed,omitempty"`
+	// JoinTyped: all supplied type-only, subtype-less values are passed in ONE
+	// multi-value option Typed(nil, v1, v2, ...) (a nil value must be ignored)
+	// instead of one option each.
+	JoinTyped bool `json:"joinTyped,omitempty"`
 }
 
 func (s *Scenario) String() string {
